@@ -36,13 +36,15 @@ func init() {
 	register(&core.Spec{
 		ID:          "C09",
 		Explanation: "Decides two structural necessary conditions of 'compare is a transitive total preorder': (NUMSET) the sets of number representations used by the comparison machinery agree everywhere - the outer and inner type switches of cmpInner, the switch over the unified operand, getNumType, and typeOf's number class (plus int, which typeOf(0) contributes) are all exactly {int, *big.Int, *big.Rat, float64}, so no mixed pair falls through to 'uncomparable' and compare &total does not split numbers by representation; (CMP-DOMAINS) operands of one exact type must not be ordered through a lossy image while the same comparison also orders that type exactly: such a pair always yields a non-transitive triple. CMP-DOMAINS fires on today's tree (known finding: mixed exact/float comparison goes through ConvertToFloat64). Reflexivity, symmetry, NaN placement and list order are value-level and not decided.",
-		NotCovered:  "reflexivity/symmetry, NaN placement, lexicographic list order, byte order of strings",
-		Rules:       []string{"NUMSET", "CMP-DOMAINS", "TOTAL-RECURSE: CmpTotal orders list elements with CmpTotal"},
+		NotCovered:  "reflexivity/symmetry, NaN placement, lexicographic list order",
+		Rules:       []string{"NUMSET", "CMP-DOMAINS", "TOTAL-RECURSE: CmpTotal orders list elements with CmpTotal", "STRING-BYTES: two compared strings are ordered only by the built-in string comparison"},
 		Patterns:    []string{"./pkg/eval/vals"},
 		Run:         runC09,
-		MinCounts:   map[string]int{"NUMSET": 4, "CMP-DOMAINS": 1, "TOTAL-RECURSE": 1},
+		MinCounts:   map[string]int{"NUMSET": 4, "CMP-DOMAINS": 1, "TOTAL-RECURSE": 1, "STRING-BYTES": 1},
 		Trusted:     trustedBase,
 		Controls: []core.Control{
+			{Name: "strings-ordered-by-length-first", Rule: "STRING-BYTES", File: "pkg/eval/vals/cmp.go", Old: "\t\tif b, ok := b.(string); ok {\n\t\t\treturn compareBuiltin(a, b)\n\t\t}", New: "\t\tif b, ok := b.(string); ok {\n\t\t\tif len(a) != len(b) {\n\t\t\t\treturn compareBuiltin(len(a), len(b))\n\t\t\t}\n\t\t\treturn compareBuiltin(a, b)\n\t\t}", Fire: true, Want: "cmpInner", Quick: true},
+			{Name: "benign-strings-compared-inline", Rule: "STRING-BYTES", File: "pkg/eval/vals/cmp.go", Old: "\t\tif b, ok := b.(string); ok {\n\t\t\treturn compareBuiltin(a, b)\n\t\t}", New: "\t\tif b, ok := b.(string); ok {\n\t\t\tswitch {\n\t\t\tcase a < b:\n\t\t\t\treturn CmpLess\n\t\t\tcase a > b:\n\t\t\t\treturn CmpMore\n\t\t\t}\n\t\t\treturn CmpEqual\n\t\t}", Fire: false},
 			{Name: "typeof-drops-bigrat", Rule: "NUMSET", File: "pkg/eval/vals/cmp.go", Old: "\tcase *big.Int, *big.Rat, float64:\n\t\treturn typeOfInt", New: "\tcase *big.Int, float64:\n\t\treturn typeOfInt", Fire: true, Quick: true},
 			{Name: "cmp-inner-switch-drops-bigint", Rule: "NUMSET", File: "pkg/eval/vals/cmp.go", Old: "\t\tswitch b.(type) {\n\t\tcase int, *big.Int, *big.Rat, float64:", New: "\t\tswitch b.(type) {\n\t\tcase int, *big.Rat, float64:", Fire: true},
 			{Name: "total-compare-recurses-with-partial-cmp", Rule: "TOTAL-RECURSE", File: "pkg/eval/vals/cmp.go", Old: "cmpInner(a, b, CmpTotal)", New: "cmpInner(a, b, Cmp)", Fire: true},
@@ -543,6 +545,7 @@ func runC09(p *core.Program, r *core.Report) {
 	// the function that does the per-type comparison: the one reachable from
 	// Cmp (in package vals, not through UnifyNums2) with the most number switches
 	var cmpInner *ssa.Function
+	var cmpReach []*ssa.Function
 	{
 		best := -1
 		seenF := map[*ssa.Function]bool{}
@@ -552,6 +555,9 @@ func runC09(p *core.Program, r *core.Report) {
 				return
 			}
 			seenF[f] = true
+			if f != getNumType && f != typeOf {
+				cmpReach = append(cmpReach, f)
+			}
 			n := 0
 			for _, s := range numCaseSets(f) {
 				if len(s) > 1 {
@@ -573,14 +579,26 @@ func runC09(p *core.Program, r *core.Report) {
 		return
 	}
 	runTotalRecurse(p, r, cmpFn, cmpTotal)
+	runStringBytes(p, r, cmpReach)
 	full := "*big.Int,*big.Rat,float64,int"
-	check := func(fn *ssa.Function, label string, want string, minGroups int) {
-		sets := numCaseSets(fn)
+	check := func(fn *ssa.Function, label string, want string, minGroups int, more ...*ssa.Function) {
 		n := 0
 		var keys []string
 		bySig := map[string]bool{}
-		for _, s := range sets {
+		for _, s := range numCaseSets(fn) {
 			keys = append(keys, joinKeys(s))
+		}
+		// the comparison may be spread over helpers (compareNums): their
+		// switches over at least three number representations count too
+		for _, g := range more {
+			if g == fn {
+				continue
+			}
+			for _, s := range numCaseSets(g) {
+				if len(s) >= 3 {
+					keys = append(keys, joinKeys(s))
+				}
+			}
 		}
 		sort.Strings(keys)
 		for _, k := range keys {
@@ -607,7 +625,7 @@ func runC09(p *core.Program, r *core.Report) {
 			r.OK("NUMSET", construct, p.Pos(fn.Pos()), itoa(n)+" number switch(es), each over exactly {"+want+"}")
 		}
 	}
-	check(cmpInner, "the per-type comparison of vals.Cmp", full, 3)
+	check(cmpInner, "the per-type comparison of vals.Cmp", full, 3, cmpReach...)
 	check(getNumType, "vals.getNumType", full, 1)
 	check(typeOf, "vals.typeOf", "*big.Int,*big.Rat,float64", 1)
 	// typeOfInt is typeOf(0): the int representation joins the class
@@ -675,6 +693,15 @@ func runC09(p *core.Program, r *core.Report) {
 		})
 	}
 	visit(cmpInner, "vals."+cmpInner.Name())
+	// the unification may be called by another piece of the comparison than
+	// the one that holds the switches
+	for _, f := range cmpReach {
+		core.Instrs(f, func(ins ssa.Instruction) {
+			if c, ok := ins.(ssa.CallInstruction); ok && c.Common().StaticCallee() == unify2 && lossy == "" {
+				visit(unify2, "vals."+f.Name()+" -> UnifyNums2")
+			}
+		})
+	}
 	construct := "vals.cmpInner -> UnifyNums2 -> ConvertToFloat64 orders exact numbers through float64"
 	if lossy != "" {
 		r.Bad("CMP-DOMAINS", construct, p.InsPos(where), "a mixed exact/inexact pair is compared after converting the exact operand to float64 ("+lossy+"), while exact pairs are compared exactly: compare 9007199254740993 (float64 9007199254740992) = 0 and compare (float64 9007199254740992) 9007199254740992 = 0 but compare 9007199254740993 9007199254740992 = 1, so compare is not transitive")
@@ -885,48 +912,61 @@ func runC10(p *core.Program, r *core.Report) {
 	r.Anchor("LATCH", "value outputs in eval.order", nput >= 1)
 	// LATCH (b): every `return true` of Less that is not the early exit sets s.err
 	nconst := 0
+	// Less and the methods of the same receiver it hands the comparison to
+	lessFns := []*ssa.Function{less}
 	core.Instrs(less, func(ins ssa.Instruction) {
-		ret, ok := ins.(*ssa.Return)
-		if !ok || len(ret.Results) != 1 {
-			return
+		if c, ok := ins.(*ssa.Call); ok {
+			if callee := c.Call.StaticCallee(); callee != nil && callee != less && callee.Blocks != nil && core.PkgPathOf(callee) == pkgEval && len(c.Call.Args) > 0 && len(less.Params) > 0 && c.Call.Args[0] == ssa.Value(less.Params[0]) {
+				if res := callee.Signature.Results(); res.Len() == 1 && isBoolType(res.At(0).Type()) {
+					lessFns = append(lessFns, callee)
+				}
+			}
 		}
-		k, ok := ret.Results[0].(*ssa.Const)
-		if !ok || !constBool(k) {
-			return
-		}
-		nconst++
-		blk := ins.Block()
-		sets := false
-		for _, x := range blk.Instrs {
-			if st, ok := x.(*ssa.Store); ok {
-				if fa, ok := st.Addr.(*ssa.FieldAddr); ok {
-					if _, f := core.FieldName(fa); f == "err" {
-						sets = true
+	})
+	for _, less := range lessFns {
+		core.Instrs(less, func(ins ssa.Instruction) {
+			ret, ok := ins.(*ssa.Return)
+			if !ok || len(ret.Results) != 1 {
+				return
+			}
+			k, ok := ret.Results[0].(*ssa.Const)
+			if !ok || !constBool(k) {
+				return
+			}
+			nconst++
+			blk := ins.Block()
+			sets := false
+			for _, x := range blk.Instrs {
+				if st, ok := x.(*ssa.Store); ok {
+					if fa, ok := st.Addr.(*ssa.FieldAddr); ok {
+						if _, f := core.FieldName(fa); f == "err" {
+							sets = true
+						}
 					}
 				}
 			}
-		}
-		early := false
-		for _, b := range less.Blocks {
-			if len(b.Instrs) == 0 {
-				continue
-			}
-			if iff, ok := b.Instrs[len(b.Instrs)-1].(*ssa.If); ok {
-				if cmp, ok := iff.Cond.(*ssa.BinOp); ok && cmp.Op == token.NEQ && isErrLoad(cmp.X) && core.EdgeTo(b, blk) == 0 {
-					early = true
+			early := false
+			for _, b := range less.Blocks {
+				if len(b.Instrs) == 0 {
+					continue
+				}
+				if iff, ok := b.Instrs[len(b.Instrs)-1].(*ssa.If); ok {
+					if cmp, ok := iff.Cond.(*ssa.BinOp); ok && cmp.Op == token.NEQ && isErrLoad(cmp.X) && core.EdgeTo(b, blk) == 0 {
+						early = true
+					}
 				}
 			}
-		}
-		construct := "(*eval.slice).Less failing exit latches the error"
-		switch {
-		case sets:
-			r.OK("LATCH", construct+" #"+itoa(nconst), p.InsPos(ins), "s.err is set in the block that returns true")
-		case early:
-			r.OK("LATCH", construct+" (early exit)", p.InsPos(ins), "the error is already latched")
-		default:
-			r.Bad("LATCH", construct+" #"+itoa(nconst), p.InsPos(ins), "a failing comparison returns without recording the error: order outputs a result instead of throwing")
-		}
-	})
+			construct := "(*eval.slice).Less failing exit latches the error"
+			switch {
+			case sets:
+				r.OK("LATCH", construct+" #"+itoa(nconst), p.InsPos(ins), "s.err is set in the block that returns true")
+			case early:
+				r.OK("LATCH", construct+" (early exit)", p.InsPos(ins), "the error is already latched")
+			default:
+				r.Bad("LATCH", construct+" #"+itoa(nconst), p.InsPos(ins), "a failing comparison returns without recording the error: order outputs a result instead of throwing")
+			}
+		})
+	}
 	r.Anchor("LATCH", "constant-true returns in Less", nconst >= 3)
 
 	// SWAP-PAIR
